@@ -1,0 +1,12 @@
+//go:build verif
+
+package updater
+
+// VerifResource returns the registry's own resource object for the identifier
+// (not a copy, as Export does), so that a harness can call the exported
+// methods of *Resource on it. Only compiled with the "verif" build tag.
+func VerifResource(reg *ResourceRegistry, identifier string) *Resource {
+	reg.RLock()
+	defer reg.RUnlock()
+	return reg.resources[identifier]
+}
